@@ -30,7 +30,7 @@ static BULK: std::sync::OnceLock<Vec<Made>> = std::sync::OnceLock::new();
 static FLOOD: std::sync::OnceLock<Vec<[u8; 32]>> = std::sync::OnceLock::new();
 /// how many distinct encodings call 15 pushes through the library's point decoding
 pub static FLOOD_N: std::sync::atomic::AtomicUsize = std::sync::atomic::AtomicUsize::new(40000);
-pub const NCALLS: usize = 18;
+pub const NCALLS: usize = 20;
 
 fn digest(parts: &[&[u8]]) -> String {
     let mut h = Sha3_256::new();
@@ -181,6 +181,32 @@ pub fn call_opt(c: usize, shared: Option<&RangeParameters<P>>) -> String {
             let b = make(params(16, 1, 1), 1, 1, false, 42);
             let c3 = make(params(8, 1, 2), 1, 2, false, 43);
             verify_digest(&[a.stmt, b.stmt, c3.stmt], &[a.proof, b.proof, c3.proof], VerifyAction::VerifyOnly)
+        },
+        18 => {
+            // a batch that is consistent for its first 20 members and not after (the last 20 use another bit length): refused as a
+            // whole, however busy the process is
+            let a: Vec<Made> = (0..20u64).map(|i| make(params(2, 1, 1), 1, 1, false, 600 + i)).chain((0..20u64).map(|i| make(params(4, 1, 1), 1, 1, false, 700 + i))).collect();
+            let stmts: Vec<RangeStatement<P>> = a.iter().map(|m| m.stmt.clone()).collect();
+            let proofs: Vec<RangeProof<P>> = a.iter().map(|m| RangeProof::<P>::from_bytes(&m.proof.to_bytes()).unwrap()).collect();
+            verify_digest(&stmts, &proofs, VerifyAction::VerifyOnly)
+        },
+        19 => {
+            // a proof made with an external RNG that is stuck at zero: still a function of the arguments and that (constant) stream
+            struct Stuck;
+            impl rand_core::RngCore for Stuck {
+                fn next_u32(&mut self) -> u32 { 0 }
+                fn next_u64(&mut self) -> u64 { 0 }
+                fn fill_bytes(&mut self, d: &mut [u8]) { for b in d.iter_mut() { *b = 0; } }
+                fn try_fill_bytes(&mut self, d: &mut [u8]) -> Result<(), rand_core::Error> { self.fill_bytes(d); Ok(()) }
+            }
+            impl rand_core::CryptoRng for Stuck {}
+            let pr = params(8, 1, 2);
+            let bl = vec![Scalar::from(77u64), Scalar::from(78u64)];
+            let c = pr.pc_gens().commit(&Scalar::from(9u64), &bl).unwrap();
+            let st = RangeStatement::init(pr, vec![c], vec![None], None).unwrap();
+            let w = RangeWitness::init(vec![CommitmentOpening::new(9, bl)]).unwrap();
+            let p = RangeProof::<P>::prove_with_rng(&mut Transcript::new(b"bppv threads"), &st, &w, &mut Stuck).unwrap();
+            digest(&[&p.to_bytes()])
         },
         15 => {
             // volume: tens of thousands of DISTINCT encodings (half of them points, half mostly not) go through the library's
